@@ -170,7 +170,9 @@ pub fn gen_case(seed: u64, idx: u64, corpus: &Corpus) -> Case {
     Case { groups, words, into, from, entry: r.below(3) as u8, family: fam }
 }
 
-pub enum Res { Ok { changed: bool }, Err(String), Panic(String), Hang(String), Superlinear, Slow, Growth(usize) }
+thread_local! { static BIG_TRIES: std::cell::Cell<u32> = const { std::cell::Cell::new(0) }; }
+
+pub enum Res { Slow64, Ok { changed: bool }, Err(String), Panic(String), Hang(String), Superlinear, Slow, Growth(usize) }
 
 fn exec(c: &Case, budget: u64) -> Outcome<Result<(Vec<String>, usize), asca::Error>> {
     let groups = c.rule_groups();
@@ -210,7 +212,26 @@ pub fn run_case(c: &Case) -> (Res, u64) {
                     Outcome::Panic { sig, .. } => (Res::Panic(sig), b),
                     _ => (Res::Superlinear, b * RETRY),
                 }
-            } else { (Res::Hang(hot_sig(&hot)), b * RETRY) }
+            } else {
+                // not backtracking: it may still be a legitimate long run - a rule list that makes the word many times longer before
+                // later groups work on it, or a refusal to go on (NoProgress) that takes a number of passes proportional to the word.
+                // A few such cases per worker get BIG x the budget as well: returning = slow (counted, not a violation), exhausted = hang.
+                // (Only a few: a real runaway grows the word on every pass and 64 budgets of that are expensive.)
+                // The budget is doubled up to BIG x as long as each attempt is cheap in wall-clock time (a real runaway grows the word
+                // on every pass and gets slow quickly; the legitimate long runs take a few hundredths of a second; the limit per attempt is three seconds). The clock only decides
+                // whether MORE steps are granted - the verdict `hang` always rests on an exhausted step budget.
+                let _ = BIG_TRIES.with(|t| t.get());
+                let mut factor = RETRY * 2; let mut last_hot = hot;
+                loop {
+                    if factor > BIG { break (Res::Hang(hot_sig(&last_hot)), b * BIG) }
+                    let t0 = std::time::Instant::now();
+                    match exec(c, b.saturating_mul(factor)) {
+                        Outcome::Budget { hot, .. } => { last_hot = hot; if t0.elapsed().as_millis() > 3000 { break (Res::Hang(hot_sig(&last_hot)), b * factor) } factor *= 2; }
+                        Outcome::Panic { sig, .. } => break (Res::Panic(sig), b),
+                        _ => break (Res::Slow64, b * RETRY),
+                    }
+                }
+            }
         }
         o => match classify(o) { Some(Res::Panic(s)) => (Res::Panic(s), b), Some(Res::Growth(n)) => (Res::Growth(n), b), _ => (Res::Slow, b) },
     }
@@ -227,6 +248,7 @@ fn record(rep: &mut Report, c: &Case, res: Res, ticks: u64) {
         Res::Ok { changed } => { rep.obs("returned_ok", 1); if changed { rep.obs("returned_ok_changed", 1); } if rep.samples.len() < 6 && changed { let cj = c.to_json(); rep.sample(|| cj); } }
         Res::Err(k) => { rep.obs("returned_err", 1); rep.obs(&format!("err_{}", k.split("::").next().unwrap_or("?")), 1); }
         Res::Slow => rep.obs("slow_but_returned_within_retry_budget", 1),
+        Res::Slow64 => { rep.obs("slow_but_returned_within_64x_budget", 1); if rep.notes.len() < 4 { rep.notes.push(format!("returned only within 64x the budget (word grown by the rules, or a no-progress refusal): {}", c.to_json())); } }
         Res::Panic(sig) => { let full = format!("panic {sig}"); if !rep.violations.contains_key(&full) { let cj = minimise(c, &full).to_json(); rep.violation(full, || json!({"case": cj, "expected": "Ok or Err", "observed": "unwinding panic"})); } else { rep.violation(full, || Value::Null); } }
         Res::Hang(sig) => { rep.obs("hangs", 1); let full = format!("hang {sig}"); if !rep.violations.contains_key(&full) { let cj = minimise(c, &full).to_json(); rep.violation(full, || json!({"case": cj, "expected": "return within the step budget", "observed": format!("budget {} exhausted repeatedly", b)})); } else { rep.violation(full, || Value::Null); } }
         Res::Superlinear => { let full = "superlinear backtracking (ellipsis/optional): returned only within 64x the step budget".to_string(); if !rep.violations.contains_key(&full) { let cj = minimise(c, &full).to_json(); rep.violation(full, || json!({"case": cj, "expected": "return within a budget proportional to |word| x |rule|", "observed": "needed more than 2x and less than 64x the budget"})); } else { rep.violation(full, || Value::Null); } }
@@ -251,8 +273,8 @@ fn worker(seed: u64, start: u64, end: u64, cur: Option<&mut std::fs::File>, corp
         }
         let (res, ticks) = run_case(&c);
         record(&mut rep, &c, res, ticks);
-        // every hang costs two exhausted budgets; once a slice has seen this many the verdict is settled and the rest is skipped
-        if rep.observed.get("hangs").cloned().unwrap_or(0) >= 40 { rep.notes.push("a slice stopped early after 40 hangs".into()); rep.obs("cases_skipped_after_too_many_hangs", end - idx - 1); break }
+        // every hang costs two exhausted budgets; once a slice has seen a dozen the verdict is settled and the rest is skipped
+        if rep.observed.get("hangs").cloned().unwrap_or(0) >= 12 { rep.notes.push("a slice stopped early after 12 hangs".into()); rep.obs("cases_skipped_after_too_many_hangs", end - idx - 1); break }
     }
     rep
 }
